@@ -2,7 +2,7 @@
 from . import modecommon
 
 LEVEL = "other"
-RM = {"MODE": "R-C09-CONSTR", "PREFIX": "R-C09-CONSTR", "NONCE2": "R-C09-DEP", "TAGPOS": "R-C09-CONSTR", "ADVANCE": "R-C09-CONSTR"}
+RM = {"MODE": "R-C09-CONSTR", "RT": "R-C09-CONSTR", "PREFIX": "R-C09-CONSTR", "NONCE2": "R-C09-DEP", "TAGPOS": "R-C09-CONSTR", "ADVANCE": "R-C09-CONSTR"}
 
 
 def run(ck, build):
